@@ -19,7 +19,7 @@ type c16 struct{}
 
 func init() {
 	register(c16{})
-	expectedProbes["C16"] = []string{"document-mutated-after-load", "root-switched-at-same-location", "call-under-refuse-burst", "meta-schema-expanded-between", "fresh-process-reference", "history>=6",
+	expectedProbes["C16"] = []string{"same-root-object-passed-again", "document-mutated-after-load", "root-switched-at-same-location", "call-under-refuse-burst", "meta-schema-expanded-between", "fresh-process-reference", "history>=6",
 		"external-document-reloaded", "ref-to-built-in-meta-schema", "package-loader-reassigned-and-used", "nil-options", "entry:ExpandSpec", "entry:ExpandSchema", "entry:ResolveRefWithBase"}
 	SingleOpMain = singleOpMain
 }
@@ -207,6 +207,43 @@ func (c16) Gen(r *sim.RNG, tier string, idx int) *Scenario {
 			last.Faults = fs
 		}
 	}
+	if r.Bool(0.35) {
+		// a caller that keeps its decoded root: two or three expansions of elements against the SAME root
+		// object without a cache, a document behind one of the URLs changing in between
+		wi := r.Intn(nw)
+		w := cur[wi]
+		var es []Op
+		for _, e := range elementOps(w, r, 0, false) {
+			if (e.Entry == "ExpandSchema" || strings.HasSuffix(e.Entry, "WithRoot")) && (e.Root == "typed" || e.Root == "generic") {
+				es = append(es, e)
+			}
+		}
+		if len(es) > 0 {
+			form := []string{"typed", "generic"}[r.Intn(2)]
+			for i := 0; i < 2+r.Intn(2); i++ {
+				op := es[r.Intn(len(es))]
+				op.World, op.Cache, op.Root, op.KeepRoot = wi, "nil", form, true
+				sc.Ops = append(sc.Ops, op)
+				var others []string
+				for _, u := range keys(w.Docs) {
+					if u != w.Root {
+						others = append(others, u)
+					}
+				}
+				if len(others) > 0 && r.Bool(0.7) {
+					u := others[r.Intn(len(others))]
+					nd := mutateDoc(w.Docs[u], fmt.Sprintf("#k%d", i))
+					w.Docs[u] = nd
+					sc.Ops = append(sc.Ops, Op{World: wi, Mutate: &Mut{URL: u, Doc: nd}})
+				}
+			}
+		}
+	}
+	for i := range sc.Ops {
+		if (sc.Ops[i].Root == "typed" || sc.Ops[i].Root == "generic") && r.Bool(0.6) {
+			sc.Ops[i].KeepRoot = true
+		}
+	}
 	// the package-level loader variable is re-assigned at random points of the history
 	tag := 0
 	for i := range sc.Ops {
@@ -333,6 +370,7 @@ func (c16) Run(sc *Scenario) *Verdict {
 	SetGlobalLoader("L0") // every history starts from the state of a fresh process
 	defer SetGlobalLoader("L0")
 	loaded := map[string]bool{} // URLs some earlier call has requested
+	kept := map[string]interface{}{} // root objects the caller keeps between calls, by world and form
 	lastWorld := -1
 	mutated, switched, burst := false, false, false
 	var kinds []string
@@ -344,6 +382,11 @@ func (c16) Run(sc *Scenario) *Verdict {
 		w := cur[op.World]
 		if op.Mutate != nil {
 			w.Docs[op.Mutate.URL] = model.CloneJSON(op.Mutate.Doc)
+			if op.Mutate.URL == w.Root {
+				// a new root document: the caller decodes it again
+				delete(kept, fmt.Sprintf("%d/typed", op.World))
+				delete(kept, fmt.Sprintf("%d/generic", op.World))
+			}
 			if loaded[op.Mutate.URL] || op.Mutate.URL == w.Root {
 				v.probe("document-mutated-after-load")
 				mutated = true
@@ -371,7 +414,25 @@ func (c16) Run(sc *Scenario) *Verdict {
 		}
 		kinds = append(kinds, op.Entry)
 		store := sim.NewStore(w.Docs, op.Faults)
-		res := ExecOp(op, &Env{World: w, Store: store, OrderKey: key, Budget: StepBudgetMeta})
+		env := &Env{World: w, Store: store, OrderKey: key, Budget: StepBudgetMeta}
+		execOp := op
+		if op.KeepRoot && (op.Root == "typed" || op.Root == "generic") {
+			// the caller kept the root it decoded for an earlier call and passes the very same object
+			k := fmt.Sprintf("%d/%s", op.World, op.Root)
+			if _, ok := kept[k]; !ok {
+				kr, err := rootOf(w, op.Root)
+				if err != nil {
+					v.Inconclusive = "harness: " + err.Error()
+					return v
+				}
+				kept[k] = kr
+			} else {
+				v.probe("same-root-object-passed-again")
+			}
+			env.SharedTyped, env.SharedGeneric = kept[k], kept[k]
+			execOp.Root = "shared-" + op.Root
+		}
+		res := ExecOp(execOp, env)
 		v.Steps += res.Out.Steps
 		v.addFaults(res.Log)
 		if strings.HasPrefix(res.Out.Panic, "harness:") && !strings.Contains(res.Out.Panic, "cannot encode") {
